@@ -512,10 +512,11 @@ func (g *Gen) Program() []Stmt {
 	if g.F.BigK {
 		g.use("bigk-preamble")
 		pad := &Table{}
-		for i := 0; i < 260; i++ {
+		npad := g.R.Range(247, 262) // constants of the body then land on both sides of index 255/256
+		for i := 0; i < npad; i++ {
 			pad.Items = append(pad.Items, TItem{Kind: 0, E: num(float64(100001 + i))})
 		}
-		body = append([]Stmt{&Local{Names: []string{"pad_"}, Es: []Expr{pad}}, emit(&Un{Op: "#", A: &Var{Name: "pad_"}}, &Index{E: &Var{Name: "pad_"}, K: num(257)})}, body...)
+		body = append([]Stmt{&Local{Names: []string{"pad_"}, Es: []Expr{pad}}, emit(&Un{Op: "#", A: &Var{Name: "pad_"}}, &Index{E: &Var{Name: "pad_"}, K: num(float64(npad - 3))})}, body...)
 	}
 	// final observation of live variables
 	body = append(body, g.dumpVars()...)
@@ -619,6 +620,11 @@ func (g *Gen) stmt(depth int) []Stmt {
 		b2i(deep) * (f.Coroutines / 3), // 34 go-function coroutine body
 		b2i(deep) * (f.Varargs / 3),  // 35 tail calls to vararg functions
 		b2i(depth == 0) * 4,          // 36 operand matrix
+		b2i(deep) * (1 + f.Funcs/4),  // 37 return (go call)
+		b2i(deep) * (f.Varargs / 3),  // 38 arg captured
+		b2i(deep) * (f.Closures / 3), // 39 closure identity / nested-block closure
+		b2i(deep) * (f.Meta / 3),     // 40 host __call handler / nil-result comparison handlers
+		b2i(deep) * (f.Coroutines / 3), // 41 wrap error inside coroutine / dead by fault
 	}
 	switch g.R.Pick(w...) {
 	case 0:
@@ -731,8 +737,27 @@ func (g *Gen) stmt(depth int) []Stmt {
 		return g.goBodyCoroutine(d)
 	case 35:
 		return g.tailVararg(d)
-	default:
+	case 36:
 		return g.operandMatrix(d)
+	case 37:
+		return g.parenGoCall(d)
+	case 38:
+		return g.argCaptured(d)
+	case 39:
+		if g.R.Bool() {
+			return g.closureIdentity(d)
+		}
+		return g.nestedBlockClosure(d)
+	case 40:
+		if g.R.Bool() {
+			return g.goCallHandler(d)
+		}
+		return g.nilCompareHandlers(d)
+	default:
+		if g.R.Bool() {
+			return g.wrapErrorInsideCoroutine(d)
+		}
+		return g.deadByFaultClosure(d)
 	}
 }
 
